@@ -92,7 +92,7 @@ class El:
             return Fn(model=lambda ex, st, a, k: El(z3.ToInt(t) if t.sort() == Re else t), name="long")   # values are integral here
         if name == "float":
             return Fn(model=lambda ex, st, a, k: El(z3.ToReal(t) if t.sort() == I else t), name="float")
-        if name in ("clone", "detach", "cpu", "to", "numpy"):
+        if name in ("clone", "detach", "cpu", "to", "numpy", "unsqueeze", "squeeze"):       # one generic element: shape ops keep its value
             return Fn(model=lambda ex, st, a, k: El(t), name=name)
         raise Undecided(f"element-wise tensor method {name}")
 
